@@ -1,6 +1,7 @@
+import Gv.Oracle.Det
 import Gv.Oracle.Sites
 import Gv.Oracle.Loop
 /-! oracle of property C04: only the handlers it needs -/
 open Gv Gv.Oracle
 
-def main : IO Unit := runOracle [SitesOps.handle]
+def main : IO Unit := runOracle [SitesOps.handle, DetOps.handle]
